@@ -216,6 +216,7 @@ func runC02Retention(c *Case, out func(string)) {
 		}
 	}
 	type fb struct{ lo, hi uint64 }
+	var ackUpTo uint64 // the sequence number the replica acknowledged
 	before, after := map[string]fb{}, map[string]fb{}
 	sst := map[uint64]bool{}
 	if b, err := os.ReadFile(filepath.Join(root, "retention.report")); err == nil {
@@ -234,6 +235,8 @@ func runC02Retention(c *Case, out func(string)) {
 				} else {
 					after[f[1]] = fb{lo, hi}
 				}
+			case f[0] == "ack" && len(f) >= 2 && strings.HasPrefix(f[1], "upto="):
+				ackUpTo, _ = strconv.ParseUint(strings.TrimPrefix(f[1], "upto="), 10, 64)
 			case f[0] == "layer" && len(f) == 3 && f[1] == "sst":
 				for _, s := range strings.Split(f[2], ",") {
 					n, _ := strconv.ParseUint(s, 10, 64)
@@ -257,6 +260,7 @@ func runC02Retention(c *Case, out func(string)) {
 		out("IMPL-ERROR reopen " + err.Error())
 		return
 	}
+	seqAfter := lastSeq(e)
 	got := map[string][]byte{}
 	it, _ := e.GetIterator()
 	for it.SeekToFirst(); it.Valid(); it.Next() {
@@ -317,13 +321,32 @@ func runC02Retention(c *Case, out func(string)) {
 			ls = append(ls, strconv.FormatUint(s, 10))
 			for _, name := range deleted {
 				b := before[name]
-				if b.lo <= s && s <= b.hi && !sst[s] {
+				// the known finding is about files whose highest number is BELOW the acknowledged
+				// one (what the retention rule says it may delete); anything else is not excused
+				if b.lo <= s && s <= b.hi && !sst[s] && (ackUpTo == 0 || b.hi < ackUpTo) {
 					kf = true
 				}
 			}
 		}
 		fails = append(fails, fmt.Sprintf("after the process stop the database is not the state after m writes for any acknowledged=%d <= m <= issued=%d: acknowledged writes numbered %s are gone (log files deleted after the acknowledgement: %s)",
 			acked, issued, strings.Join(ls, ","), strings.Join(deleted, ",")))
+	}
+	// C08 across retention and restart: single writes on a fresh database are numbered 1, 2, ...;
+	// the counter the reopened database reports may not be behind the acknowledged writes (a log
+	// file that holds the highest number may not be retired while no newer file has an entry)
+	unexcused := false
+	for _, name := range deleted {
+		if b := before[name]; ackUpTo > 0 && b.hi >= ackUpTo {
+			fails = append([]string{fmt.Sprintf("retention deleted the log file %s although its highest sequence number %d is not below the acknowledged sequence number %d", name, b.hi, ackUpTo)}, fails...)
+			unexcused = true
+		}
+	}
+	if seqAfter < uint64(acked) && !kf {
+		fails = append([]string{fmt.Sprintf("last_sequence is %d after the restart, %d writes were acknowledged before it (log files deleted by retention: %s)", seqAfter, acked, strings.Join(deleted, ","))}, fails...)
+		unexcused = true
+	}
+	if unexcused {
+		kf = false
 	}
 	if len(fails) == 0 {
 		out("ORACLE ok")
